@@ -251,6 +251,9 @@ func (e *fwEnv) call(c *ast.CallExpr, lhs []ast.Expr) ([]string, error) {
 			if v := bindFirst(); v != "" {
 				e.fiVars[v] = true
 			}
+			if name == "Lstat" {
+				return []string{".lstat"}, nil // describes the link itself when path is a symbolic link
+			}
 			return []string{".stat"}, nil
 		case "CreateTemp":
 			if len(c.Args) != 2 || !e.isDirOfPath(c.Args[0]) || !e.isPattern(c.Args[1]) {
